@@ -6,7 +6,13 @@ import (
 
 	sdk "github.com/cosmos/cosmos-sdk/types"
 
+	abci "github.com/cometbft/cometbft/abci/types"
+
+	auctionv1 "github.com/comdex-official/comdex/x/auction"
+	auctionv1types "github.com/comdex-official/comdex/x/auction/types"
 	auctypes "github.com/comdex-official/comdex/x/auctionsV2/types"
+	liquidationv1 "github.com/comdex-official/comdex/x/liquidation"
+	liqv1types "github.com/comdex-official/comdex/x/liquidation/types"
 	esmtypes "github.com/comdex-official/comdex/x/esm/types"
 	lendtypes "github.com/comdex-official/comdex/x/lend/types"
 	liqtypes "github.com/comdex-official/comdex/x/liquidationsV2/types"
@@ -82,6 +88,10 @@ func (f *Fix) Exec(e *sim.Env, a string, args M) M {
 		return resOf(e.Deliver(lendtypes.NewMsgFundReserveAccounts(u64("asset"), addr(), coin("da", "amt"))))
 	case "Liquidate":
 		return resOf(e.Deliver(liqtypes.NewMsgLiquidateInternalKeeperRequest(e.Users[gets(args, "u")], 1, u64("b"))))
+	case "LiquidateV1": // first-generation liquidation request for a borrow position
+		return resOf(e.Deliver(liqv1types.NewMsgLiquidateBorrowRequest(e.Users[gets(args, "u")], u64("b"))))
+	case "BidV1": // first-generation lend Dutch bid: the amount is the COLLATERAL asked for
+		return resOf(e.Deliver(auctionv1types.NewMsgPlaceDutchLendBid(addr(), u64("auc"), coin("da", "amt"), f.App, u64("map"))))
 	case "Bid":
 		return resOf(e.Deliver(auctypes.NewMsgPlaceMarketBid(addr(), u64("auc"), coin("da", "amt"))))
 	case "Kill": // environment: the app's circuit breaker (admin check is C12's matter)
@@ -97,6 +107,17 @@ func (f *Fix) Exec(e *sim.Env, a string, args M) M {
 		return M{"ok": true}
 	case "Tick": // environment: block boundary with a time gap (all end/begin blockers of the real app)
 		br := e.NextBlock(time.Duration(geti(args, "dt")) * time.Second)
+		if !br.Panic && f.V.V1 { // the first-generation hooks are not wired into the app: called directly, as the repository's tests do
+			func() {
+				defer func() {
+					if r := recover(); r != nil {
+						br = sim.BlockResult{Panic: true, Err: fmt.Sprint(r)}
+					}
+				}()
+				liquidationv1.BeginBlocker(e.Ctx, abci.RequestBeginBlock{}, e.App.LiquidationKeeper)
+				auctionv1.BeginBlocker(e.Ctx, e.App.AuctionKeeper, e.App.AssetKeeper, e.App.CollectorKeeper, e.App.EsmKeeper)
+			}()
+		}
 		return M{"ok": !br.Panic, "panic": br.Panic, "err": trunc(br.Err, 160)}
 	case "Accrue": // environment (walk mode only): interest of d whole coins lands on a borrow position
 		b, found := e.App.LendKeeper.GetBorrow(e.Ctx, u64("b"))
